@@ -64,6 +64,13 @@ def check(ctx: Ctx) -> str:
     from ..emitrules import c01_skeleton_rules
 
     c01_skeleton_rules(ctx)
+    # folded constants are written with repr(): only literal-evaluable values may pass
+    # has_safe_repr, anything else is a host-language error in the generated module
+    from .c08 import r0_fold_failures
+    from .c08 import r3_safe_repr
+
+    r3_safe_repr(ctx, "R11")
+    r0_fold_failures(ctx, "R12")
     return __doc__ or ""
 
 
